@@ -661,6 +661,36 @@ def holders(core, facs, stored_order, rng, dname=None):
     return A, {"dense": T, "sparse": S, "ktensor": K, "ttensor": Tk}
 
 
+def shared_holders(rng, s, stored_order):
+    """a symmetric CP model sum_r w_r a_r x ... x a_r held as tensor, sptensor, ktensor and ttensor; the Kruskal and Tucker
+    holders reference ONE factor-matrix object in every mode (copy=False)"""
+    m, N = s[0], len(s)
+    R = min(m, 3)
+    nprng = np.random.default_rng(rng.getrandbits(32))
+    Af = np.asfortranarray(nprng.standard_normal((m, R)) + 2.0 * np.eye(m, R))
+    w = np.array([3.0, -2.0, 1.25][:R])
+    A = np.zeros(tuple(s))
+    for r in range(R):
+        t = np.array(w[r])
+        for _ in range(N):
+            t = np.multiply.outer(t, Af[:, r])
+        A = A + t
+    T = ttb.tensor(np.asfortranarray(A), copy=True)
+    subs = [list(c) for c in gen.all_subs(list(s)) if A[tuple(c)] != 0]
+    if stored_order == "reversed":
+        subs.reverse()
+    elif stored_order == "shuffled":
+        rng.shuffle(subs)
+    S = ttb.sptensor(np.array(subs, dtype=int), np.array([A[tuple(c)] for c in subs]).reshape(-1, 1), tuple(s))
+    K = ttb.ktensor([Af] * N, w.copy(), copy=False)
+    assert all(f is K.factor_matrices[0] for f in K.factor_matrices), "the shared-object Kruskal holder was copied"
+    core = np.zeros((R,) * N)
+    for r in range(R):
+        core[(r,) * N] = w[r]
+    Tk = ttb.ttensor(ttb.tensor(np.asfortranarray(core), copy=True), [Af] * N, copy=False)
+    return A, {"dense": T, "sparse": S, "ktensor": K, "ttensor": Tk}
+
+
 class RealSolver(Family):
     name = "real_solver"
     theorems = ("C14_postprocess", "C14_sign_rule", "C14_same_subspace", "C14_gram_agree", "C14_max_energy",
@@ -692,6 +722,11 @@ class RealSolver(Family):
             for sc in ([1e-9, 1e-6, 1e6, 1e9] if tier == "quick" else [1e-12, 1e-9, 2e-8, 1e-6, 1e-3, 1e3, 1e6, 1e9, 1e12]):
                 scaled.append((s, rng.choice(["planted", "integer"]), None, sc))
         plan = [p + (None,) for p in plan] + scaled
+        # holders whose components are ONE array object (added after seed C14v): a symmetric Kruskal / Tucker model
+        # built without copying from a single factor matrix - equal values in distinct arrays behave differently from
+        # one shared object for any code that tells components apart by identity
+        for m, N in ([(4, 3), (3, 4), (5, 2)] if tier == "quick" else [(4, 3), (3, 4), (5, 2), (3, 3), (2, 4), (6, 3), (4, 2)]):
+            plan.append(([m] * N, "shared", None, None))
         for s, kind, dname, sc in plan:
             seed = rng.getrandbits(32)
             noise = rng.choice([0.0, 1e-2, 0.3])
@@ -717,6 +752,8 @@ class RealSolver(Family):
         import random
         rng = random.Random(c["seed"])
         s = c["shape"]
+        if c["kind"] == "shared":
+            return shared_holders(rng, s, c["stored"])
         if c["kind"] == "planted":
             core, facs = planted(rng, s, c["noise"])
         elif c.get("dtype"):
